@@ -45,7 +45,7 @@ func reportOrderUnderSlowRefresh(r *lib.Run, idx int) {
 	default:
 		r1, r2 = r2, r1 // first 0, then the maximum
 	}
-	typ := []uint16{typClientInfo, typBasicRadius}[idx%2]
+	typ := typClientInfo // the one type every network accepts in both directions
 	pay := func(rad [32]byte) []byte {
 		switch typ {
 		case typClientInfo:
@@ -102,5 +102,6 @@ func reportOrderUnderSlowRefresh(r *lib.Run, idx int) {
 			map[string]any{"case": idx, "payload_type": typ, "first_report_ping": lib.Hex(r1[:]), "second_report_pong": lib.Hex(r2[:]), "radius_held": lib.Hex(got)})
 	default:
 		r.Count("report_order_neither_report_registered_info", 1)
+		r.Extra(fmt.Sprintf("report_order_unregistered_case_%d", idx), map[string]any{"payload_type": typ, "held": lib.Hex(got), "present": ok, "r1": lib.Hex(r1[:]), "r2": lib.Hex(r2[:])})
 	}
 }
